@@ -104,6 +104,22 @@ func genCorsCfg(r *core.Rand) *corsCfg {
 		c.Methods = []string{"get", "POST"}
 	}
 	c.EmptyNonNil = r.Chance(1, 3)
+	if r.Chance(1, 10) {
+		// long lists: the entry that matters sits behind many others
+		n := []int{9, 17, 33, 70}[r.Intn(4)]
+		var many []string
+		for i := 0; i < n; i++ {
+			many = append(many, fmt.Sprintf("http://h%d.example.com", i))
+		}
+		c.Domains = append(many, c.Domains...)
+		if len(c.Headers) > 0 && !exactIn("*", c.Headers) {
+			var hs []string
+			for i := 0; i < n; i++ {
+				hs = append(hs, fmt.Sprintf("X-H%d", i))
+			}
+			c.Headers = append(hs, c.Headers...)
+		}
+	}
 	return c
 }
 
@@ -562,6 +578,16 @@ func c09(ctx *core.Ctx) {
 					var hs []string
 					for i := 0; i < rr.Intn(5); i++ {
 						hs = append(hs, rr.Pick(reqHeaders))
+					}
+					if len(p.cfg.Headers) > 0 && rr.Chance(1, 12) {
+						// a long request list: 12 or 40 names, allowed ones, now and then one that is not allowed at the very end
+						hs = nil
+						for i := 0; i < []int{12, 40}[rr.Intn(2)]; i++ {
+							hs = append(hs, rr.Pick(p.cfg.Headers))
+						}
+						if rr.Chance(1, 2) {
+							hs = append(hs, "X-Evil")
+						}
 					}
 					acrh := strings.Join(hs, rr.Pick([]string{",", ", ", " , "}))
 					req := corsReq("OPTIONS", u, origin, acrm, acrh)
